@@ -18,3 +18,6 @@ def run(chk):
     # group it uses, or the previous job of the slot decides what the new manager does
     from . import c20
     c20.rule_job_setup(chk, P, 'I6', floor=20)
+    # the per-architecture init functions agree (error-code reset, feature detection, dispatch to the type inits)
+    from . import twins
+    twins.rule_arch_siblings(chk, P, 'X6', floor=60)
